@@ -2,6 +2,7 @@ package main
 
 import (
 	"fmt"
+	"os"
 	"go/types"
 
 	"golang.org/x/tools/go/ssa"
@@ -21,9 +22,12 @@ import (
 // len(m) stays an unconstrained non-negative value; `range` yields an arbitrary present key with its value (no order, no
 // completeness: an invariant can say "everything yielded so far came from the map", not "everything was visited").
 
+// noMaps: unit option / environment switch: maps stay opaque (the behaviour before maps were modelled)
+var noMaps = os.Getenv("GOVC_NOMAPS") != ""
+
 func mapModelled(t types.Type) (*types.Map, bool) {
 	mt, ok := t.Underlying().(*types.Map)
-	if !ok {
+	if !ok || noMaps {
 		return nil, false
 	}
 	if slots(mt.Elem()) != 1 {
